@@ -174,6 +174,122 @@ Definition same_upto (d : nat) (a b : option gate_state) : Prop :=
   | _, _ => False
   end.
 
+(* ---------------------------------------------------------------- requests
+
+   A render is not only started by a call of Engine.Render.
+
+     func (e *Engine) RenderPartials(ctx, name, data, partials) (map[string]io.Reader, error) {
+         for _, partial := range partials {
+             buf, err := e.Render(ctx, name+".partial/"+partial, data)   // one gated render per partial
+             if err != nil { return nil, err }                           // missing partial, context error
+             res[partial] = buf
+         }
+         return res, nil                // (a failing template function panics out of Render and of this loop)
+     }
+
+   A REQUEST [q] is a call of Render (one render) or of RenderPartials (one
+   render per partial, one after the other, all with the request's context).
+   Each of its renders is a render of the gate above with a name of its own;
+   [cur] maps a request in progress to its render that is at the gate or in
+   flight.  The request machine adds nothing to the gate: every request event
+   is carried out by the gate events [emit] gives (RNext: the deferred receive
+   of the render that returned its result, then the Render call for the next
+   partial - with a context that is over if the request's context ended
+   meanwhile), and [trace] keeps the gate events so far (newest first), so that
+   every accepted request history IS an accepted gate history
+   (C09_requests_refine) and all the theorems above hold for it.
+
+   Engine.Debug.  In debug mode Render reloads its template after the gate
+   block (LoadTemplates(name) under the engine's lock, released again before
+   the template executes); the gate block itself does not look at the mode.
+   The model therefore has no mode: the same machine is the model of an engine
+   with Debug = true and with Debug = false. *)
+
+Inductive req_event :=
+| RCall   (q r : rid) (over : bool)  (* Render / RenderPartials called; [r] names its first render *)
+| REnd    (q : rid)                  (* the context of the request ends *)
+| REnter  (q : rid)                  (* its render at the gate gets the slot *)
+| RNext   (q r' : rid)               (* its render in flight returned a result: slot handed back, Render called
+                                        for the next partial, named [r'] *)
+| RReturn (q : rid) (o : outcome)    (* its render in flight was the last one / failed / panicked: slot handed
+                                        back, the request is over *)
+| RError  (q : rid).                 (* ctx.Done() won the select of its render at the gate: the request returns
+                                        the error *)
+
+Record req_state := mk_req {
+  gate  : gate_state;
+  cur   : list (rid * rid);   (* request in progress, its render at the gate / in flight *)
+  qused : list rid;           (* request names used so far *)
+  qover : list rid;           (* requests whose context is over *)
+  trace : list gate_event;    (* the gate events carried out so far, newest first *)
+}.
+
+Definition req_init (n : nat) : req_state := mk_req (gate_init n) [] [] [] [].
+
+Definition lookup (q : rid) (l : list (rid * rid)) : option rid :=
+  match find (fun p => Nat.eqb q (fst p)) l with Some p => Some (snd p) | None => None end.
+
+Definition drop (q : rid) (l : list (rid * rid)) : list (rid * rid) :=
+  filter (fun p => negb (Nat.eqb q (fst p))) l.
+
+(* the gate events that carry out a request event *)
+Definition emit (s : req_state) (e : req_event) : option (list gate_event) :=
+  match e with
+  | RCall q r over => if memr q (qused s) then None else Some [Start r over]
+  | REnd q =>
+    match lookup q (cur s) with
+    | Some r => Some [CtxEnd r]
+    | None => if memr q (qused s) then Some [] else None    (* the request is over already: nothing at the gate *)
+    end
+  | REnter q => match lookup q (cur s) with Some r => Some [Enter r] | None => None end
+  | RNext q r' =>
+    match lookup q (cur s) with
+    | Some r => Some [Leave r o_ok; Start r' (memr q (qover s))]
+    | None => None
+    end
+  | RReturn q o => match lookup q (cur s) with Some r => Some [Leave r o] | None => None end
+  | RError q => match lookup q (cur s) with Some r => Some [Cancel r] | None => None end
+  end.
+
+Definition req_step (s : req_state) (e : req_event) : option req_state :=
+  match emit s e with
+  | None => None
+  | Some evs =>
+    match run (Some (gate s)) evs with
+    | None => None
+    | Some g =>
+      let tr := rev evs ++ trace s in
+      Some match e with
+           | RCall q r over =>
+             mk_req g ((q, r) :: cur s) (q :: qused s) (if over then q :: qover s else qover s) tr
+           | REnd q => mk_req g (cur s) (qused s) (q :: qover s) tr
+           | REnter q => mk_req g (cur s) (qused s) (qover s) tr
+           | RNext q r' => mk_req g ((q, r') :: drop q (cur s)) (qused s) (qover s) tr
+           | RReturn q _ | RError q => mk_req g (drop q (cur s)) (qused s) (qover s) tr
+           end
+    end
+  end.
+
+Definition req_step_opt (s : option req_state) (e : req_event) : option req_state :=
+  match s with Some s => req_step s e | None => None end.
+
+Definition req_run (s : option req_state) (evs : list req_event) : option req_state :=
+  fold_left req_step_opt evs s.
+
+Definition req_reach (n : nat) (evs : list req_event) : option req_state :=
+  req_run (Some (req_init n)) evs.
+
+(* what is to be seen of the requests: those whose render is in flight (a template
+   of theirs is executing), those whose render is at the gate *)
+Definition q_inside (s : req_state) : list rid :=
+  map fst (filter (fun p => memr (snd p) (inflight (gate s))) (cur s)).
+Definition q_waiting (s : req_state) : list rid :=
+  map fst (filter (fun p => memr (snd p) (waiting (gate s))) (cur s)).
+
+(* the requests that got the context error *)
+Definition req_errors (evs : list req_event) : list rid :=
+  flat_map (fun e => match e with RError q => [q] | _ => [] end) evs.
+
 (* same members (used by the judge to compare observed and model sets) *)
 Definition same_set (a b : list rid) : bool :=
   forallb (fun x => memr x b) a && forallb (fun x => memr x a) b.
